@@ -522,7 +522,13 @@ func runSess(r *common.Run, reqs []reqSpec, sched []string, class string) {
 		}
 		sr.act(a)
 	}
-	obs := sr.epilogue()
+	var obs string
+	if len(sr.problems) > 0 {
+		r.Hist["problem"]++
+		obs = "aborted"
+	} else {
+		obs = sr.epilogue()
+	}
 	if len(sr.problems) > 0 {
 		obs += " PROBLEM:" + strings.ReplaceAll(strings.Join(sr.problems, ";"), " ", "_")
 	}
